@@ -821,12 +821,12 @@ pub fn run(ctx: &Ctx) -> Report {
     });
     stats.merge(st);
     if failure.is_none() {
-        let (st, f) = run_proptest(ctx, "vsock-wrap", 172, ctx.n(6_000, 150_000), wrap_strategy, |c: &WCase, st| check_wrap(c, st, &known));
+        let (st, f) = run_proptest(ctx, "vsock-wrap", 172, ctx.n(6_000, 600_000), wrap_strategy, |c: &WCase, st| check_wrap(c, st, &known));
         stats.merge(st);
         failure = f;
     }
     if failure.is_none() {
-        let (st, f) = run_proptest(ctx, "vsock-stream", 171, ctx.n(60_000, 1_500_000), stream_strategy, |c: &FCase, st| check_stream(c, st, &known));
+        let (st, f) = run_proptest(ctx, "vsock-stream", 171, ctx.n(60_000, 4_000_000), stream_strategy, |c: &FCase, st| check_stream(c, st, &known));
         stats.merge(st);
         failure = f;
     }
